@@ -1,10 +1,12 @@
 use crate::Ctx;
+pub mod c07;
 pub mod c14;
 pub mod c16;
 pub mod c20;
 
 pub fn run(ctx: &mut Ctx, suite: &str) {
     match suite {
+        "c07" => c07::run(ctx),
         "c14" => c14::run(ctx),
         "c16" => c16::run(ctx),
         "c20" => c20::run(ctx),
@@ -18,6 +20,7 @@ pub fn run(ctx: &mut Ctx, suite: &str) {
 /// Re-runs one case (given by its suite tag and input fields) against the implementation.
 pub fn replay(ctx: &mut Ctx, tag: &str, args: &[&str]) {
     match tag {
+        "c07" => c07::case(ctx, args[0], args[1], args[2], args[3], args[4]),
         "c14" => c14::case_ops(ctx, args[0], args[1]),
         "c14a" => c14::case_ascii(ctx, args[0], args[1]),
         "c14n" => c14::case_num(ctx, args[0], args[1]),
